@@ -97,10 +97,11 @@ const (
 	opWaitCancel
 	opSnapCombo
 	opWaitDelete
+	opWaitExpire
 	nOps
 )
 
-var opNames = [...]string{"createTopic", "deleteTopic", "createSub", "deleteSub", "updateSub", "publish", "pull", "ack", "modack", "seekTime", "snapshot", "seekSnap", "advance", "job", "dlSweep", "expirySweep", "setDelay", "fault", "restart", "deleteSnap", "pullAck", "chase", "nack", "waitCancel", "snapCombo", "waitDelete"}
+var opNames = [...]string{"createTopic", "deleteTopic", "createSub", "deleteSub", "updateSub", "publish", "pull", "ack", "modack", "seekTime", "snapshot", "seekSnap", "advance", "job", "dlSweep", "expirySweep", "setDelay", "fault", "restart", "deleteSnap", "pullAck", "chase", "nack", "waitCancel", "snapCombo", "waitDelete", "waitExpire"}
 
 func baseWeights() []int {
 	w := make([]int, nOps)
@@ -130,6 +131,7 @@ func baseWeights() []int {
 	w[opWaitCancel] = 1
 	w[opSnapCombo] = 1
 	w[opWaitDelete] = 1
+	w[opWaitExpire] = 1
 	return w
 }
 
@@ -138,6 +140,7 @@ func (r *Run) configure() {
 	t.Frame()
 	ticks := []time.Duration{100 * time.Nanosecond, time.Microsecond, 10 * time.Microsecond, 137 * time.Microsecond}
 	r.Sim.tick = ticks[t.Intn(len(ticks))]
+	r.Sim.spinAfter = 6000 // per step (StepBegin); no step on the unchanged tree reaches a fifth of it
 	r.nTopics = 1 + t.Intn(4)
 	r.nSubs = 1 + t.Intn(6)
 	r.faultsOn = t.Bool(40)
@@ -193,6 +196,7 @@ func (r *Run) configure() {
 	case "time":
 		w[opWaitCancel] = 6
 		w[opWaitDelete] = 3
+		w[opWaitExpire] = 12
 		w[opAdvance] *= 2
 		w[opExpirySweep] = 5
 		w[opSetDelay] = 3
@@ -438,6 +442,7 @@ func (r *Run) expectCode(prop, what string, res opResult, want codes.Code) *Viol
 func (r *Run) step() *Violation {
 	t := r.T
 	t.Frame()
+	r.Sim.StepBegin()
 	op := t.Pick(r.opWeights)
 	switch op {
 	case opCreateTopic:
@@ -488,6 +493,8 @@ func (r *Run) step() *Violation {
 		return r.doSnapCombo(t.Intn(r.nSubs))
 	case opWaitDelete:
 		return r.doWaitDelete(t.Intn(r.nSubs))
+	case opWaitExpire:
+		return r.doWaitExpire(t.Intn(r.nSubs))
 	case opFault:
 		if r.Variant == "order" && t.Bool(50) {
 			// a storage fault inside a publish (the predecessor lookup is one of its statements)
@@ -2013,6 +2020,118 @@ func (r *Run) doWaitDelete(i int) *Violation {
 		}
 	}
 	return nil
+}
+
+// doWaitExpire: a message's retention ends while a pull is waiting for that message's lease
+// to run out. The clock is moved to shortly before the retention deadline of an outstanding
+// delivery, a pull takes it (legal: still retained) which leases it beyond the deadline, and
+// a waiting pull is parked over both the deadline and the end of the lease. The waiting pull
+// is watched in slices of virtual time: a response that arrives after it was last seen
+// parked was computed after that instant, which is what lets "never delivered after its
+// retention" be decided for a request that started before the deadline.
+func (r *Run) doWaitExpire(i int) *Violation {
+	name := subName(i)
+	ms := r.M.LiveSub(name)
+	if r.pendingFault != "" || ms == nil || ms.Cfg.Ordered || ms.Cfg.fullDL() {
+		return nil
+	}
+	now := time.Now()
+	var target *ED
+	var b time.Duration
+	for _, e := range ms.EDs {
+		if e.State != stOut || e.Fuzzy || e.RetHi.Sub(e.RetLo) > time.Second {
+			continue
+		}
+		eb := nominalBackoff(&ms.Cfg, e.Seen+e.SeenUnc)
+		if eb < 2*time.Second || eb > 45*time.Second || nominalBackoff(&ms.Cfg, e.Seen) != eb {
+			continue
+		}
+		at := e.RetLo.Add(-eb / 2)
+		if !at.After(now.Add(time.Second)) || !e.LeaseHi.Before(at.Add(-time.Second)) {
+			continue
+		}
+		if target == nil || e.RetLo.Before(target.RetLo) {
+			target, b = e, eb
+		}
+	}
+	if target == nil {
+		return nil
+	}
+	time.Sleep(time.Until(target.RetLo.Add(-b / 2)))
+	r.Sim.Settle()
+	r.ev("advance to %v before the retention deadline of %v", b/2, target)
+	seen := target.Seen
+	if v := r.doPull(i, false); v != nil {
+		return v
+	}
+	if ms = r.M.LiveSub(name); ms == nil || target.State != stOut || target.Fuzzy || target.Seen != seen+1 || !target.LeaseLo.After(target.RetHi.Add(time.Second)) {
+		return nil // not taken by that pull (small max, fault, ...): no scenario
+	}
+	until := target.LeaseHi.Add(3 * time.Second)
+	ctx, cancel := context.WithCancel(context.Background())
+	defer cancel()
+	ctx, mark := WithBeginMark(ctx)
+	var err error
+	var resp proto.Message
+	done := make(chan struct{})
+	t0 := time.Now()
+	go func() {
+		defer close(done)
+		resp, err = r.W.Call(ctx, "Pull", &pubsubpb.PullRequest{Subscription: name, MaxMessages: 10})
+	}()
+	r.Sim.Settle()
+	finished := func() bool {
+		select {
+		case <-done:
+			return true
+		default:
+			return false
+		}
+	}
+	lastParked := t0
+	for !finished() && time.Now().Before(until) {
+		lastParked = time.Now()
+		time.Sleep(500 * time.Millisecond)
+		r.Sim.Settle()
+	}
+	cancelled := false
+	if !finished() {
+		cancelled = true
+		cancel()
+	}
+	<-done
+	r.Sim.Settle()
+	t1 := time.Now()
+	r.M.probe("waiting_pull_over_retention_deadline")
+	if p, ok := isPanic(err); ok {
+		return viol("C16", "panic:Pull", "%v", p.Val)
+	}
+	if err != nil {
+		r.ev("Pull %s (waiting over a retention deadline) after %v -> %v (cancelled by the client: %v)", name, t1.Sub(t0), code(err), cancelled)
+		r.cev("PullOverDeadline %s %v", name, code(err))
+		if ms = r.M.LiveSub(name); ms != nil {
+			ms.ActLo, ms.ActHi = t0, t1
+		}
+		return nil
+	}
+	recv := toRecv(resp.(*pubsubpb.PullResponse).ReceivedMessages)
+	for _, x := range recv {
+		r.ackPool = append(r.ackPool, x.AckID)
+	}
+	r.ev("Pull %s (waiting over a retention deadline) returned %d messages after %v (last seen parked at +%v, last transaction begun at +%v)", name, len(recv), t1.Sub(t0), lastParked.Sub(t0), mark.Last.Sub(t0))
+	r.cev("PullOverDeadline %s %d", name, len(recv))
+	if ms = r.M.LiveSub(name); ms == nil {
+		return nil
+	}
+	if len(recv) > 0 {
+		// a non-empty response comes from the request's last transaction, which began after
+		// the pull was last seen parked and not before the driver saw that transaction begin
+		if mark.N > 0 && mark.Last.After(lastParked) {
+			lastParked = mark.Last
+		}
+		return r.M.Pull(ms, 10, recv, lastParked, t1)
+	}
+	return r.M.Pull(ms, 10, recv, t0, t1)
 }
 
 // doSnapCombo: the pattern snapshots exist for, in one step: pull on a subscription,
